@@ -413,6 +413,23 @@ def processStructOuts (dimAware : Bool) (ps : Path) (params : List (String × St
   let r := handleOuts dimAware ps params kvs outsPath fs1
   (.obj r.1, r.2)
 
+/-! ## The compile-time duplicate-name check (compile_types.go `StructType.compile`) -/
+
+/-- `StructType.compile`'s duplicate check as a decidable predicate: the
+output file names of the file-typed members are pairwise distinct. -/
+def noDupNames : List (String × String × Ty) → List String → Bool
+  | [], _ => true
+  | (id, on, t) :: ms, seen =>
+    if hasFile t then
+      let n := outFilename t id on
+      if seen.contains n then false else noDupNames ms (n :: seen)
+    else noDupNames ms seen
+
+/-- names of the file-typed members, in declaration order -/
+def memberNames : List (String × String × Ty) → List String
+  | [] => []
+  | (id, on, t) :: ms => if hasFile t then outFilename t id on :: memberNames ms else memberNames ms
+
 /-! ## The hand-built JSON writer, token level
 
 `moveOutDir`/`moveOutArrayDir` write punctuation by hand around fragments
